@@ -22,6 +22,10 @@ TaT(c)       == [t |-> "ta", c |-> c]
 SFmt(fs)     == [t |-> "sfmt", fs |-> fs]  \* StringFormat<f1> / StringFormatExtends<.., f2>
 NFmt(fs)     == [t |-> "nfmt", fs |-> fs]
 
+App(n, args) == [t |-> "app", n |-> n, args |-> args]   \* generic instantiation N<args>; the declaration has params
+Param(n)     == [t |-> "param", n |-> n]                \* type parameter inside a generic declaration
+Deco(d, a)   == [t |-> "deco", d |-> d, a |-> a]        \* spelling-only decoration: parens | readonly | comment | jsdoc
+
 \* template parts
 TpStr     == [p |-> "str"]
 TpNum     == [p |-> "num"]
@@ -41,7 +45,27 @@ LN(n)   == Lit(VNum(n))
 LB(b)   == Lit(VBool(b))
 
 \* environments: sequence of [n |-> name, ty |-> body, kind |-> "type" | "interface"]
-Decl(n, ty) == [n |-> n, ty |-> ty]
+Decl(n, ty) == [n |-> n, ty |-> ty, kind |-> "type"]
+DeclOf(env, n) == env[CHOOSE i \in DOMAIN env : env[i].n = n]
+
+\* substitution of type parameters (generic instantiation)
+RECURSIVE Subst(_, _)
+Subst(T, sg) ==
+  CASE T.t = "param" -> IF T.n \in DOMAIN sg THEN sg[T.n] ELSE T
+    [] T.t = "arr"   -> [T EXCEPT !.e = Subst(T.e, sg)]
+    [] T.t = "set"   -> [T EXCEPT !.e = Subst(T.e, sg)]
+    [] T.t = "map"   -> [T EXCEPT !.kt = Subst(T.kt, sg), !.vt = Subst(T.vt, sg)]
+    [] T.t = "tuple" -> [T EXCEPT !.es = [i \in DOMAIN T.es |-> Subst(T.es[i], sg)], !.r = [i \in DOMAIN T.r |-> Subst(T.r[i], sg)]]
+    [] T.t = "obj"   -> [T EXCEPT !.ps = [i \in DOMAIN T.ps |-> [T.ps[i] EXCEPT !.ty = Subst(T.ps[i].ty, sg)]],
+                                  !.ix = [i \in DOMAIN T.ix |-> [kt |-> Subst(T.ix[i].kt, sg), vt |-> Subst(T.ix[i].vt, sg)]]]
+    [] T.t \in {"union", "inter"} -> [T EXCEPT !.ms = [i \in DOMAIN T.ms |-> Subst(T.ms[i], sg)]]
+    [] T.t = "app"   -> [T EXCEPT !.args = [i \in DOMAIN T.args |-> Subst(T.args[i], sg)]]
+    [] T.t = "deco"  -> [T EXCEPT !.a = Subst(T.a, sg)]
+    [] OTHER -> T
+\* body of N<args>
+Instantiate(env, n, args) ==
+  LET d == DeclOf(env, n) IN Subst(d.ty, [k \in {d.params[i] : i \in DOMAIN d.params} |->
+                                           args[CHOOSE i \in DOMAIN d.params : d.params[i] = k]])
 Lookup(env, n) == env[CHOOSE i \in DOMAIN env : env[i].n = n].ty
 Defined(env, n) == \E i \in DOMAIN env : env[i].n = n
 =============================================================================
